@@ -1,1 +1,3 @@
+pub mod boxes;
 pub mod prog;
+pub mod shrink;
